@@ -18,9 +18,15 @@ Inductive expect :=
 (* lo / hi: time.Now().Unix() read immediately before / after the call *)
 Inductive case :=
 | CArg (loc : Z) (s : string) (lo hi : Z) (e : expect) (obs : res Z)
-| CRange (loc : Z) (a b : string) (lo hi : Z) (ea eb : expect) (obs : res (Z * Z)).
+| CRange (loc : Z) (a b : string) (lo hi : Z) (ea eb : expect) (obs : res (Z * Z))
+(* ParseTimeRangeCollectErrors: (first, last, recorded failures 1/2/3 in order) *)
+| CCollect (loc : Z) (a b : string) (lo hi : Z) (ea eb : expect) (obs : res (Z * Z * list Z)).
 
 Definition pair_eqb (x y : Z * Z) : bool := (fst x =? fst y) && (snd x =? snd y).
+Fixpoint zlist_eqb (x y : list Z) : bool :=
+  match x, y with [], [] => true | a :: x', b :: y' => (a =? b) && zlist_eqb x' y' | _, _ => false end.
+Definition triple_eqb (x y : Z * Z * list Z) : bool := pair_eqb (fst x) (fst y) && zlist_eqb (snd x) (snd y).
+Definition zmem (v : Z) (l : list Z) : bool := existsb (Z.eqb v) l.
 
 (* all clock readings in [lo, hi]; the harness guarantees lo <= hi <= lo + 2 (else it aborts the run
    as an infrastructure error); a case outside that bound does not correspond *)
@@ -48,6 +54,11 @@ Definition corr (c : case) : bool :=
     fmt_ok loc a ea && fmt_ok loc b eb &&
     (clock_ok lo hi &&
      existsb (fun n1 => existsb (fun n2 => res_eqb pair_eqb (parse_time_range loc n1 n2 (S_ a) (S_ b)) obs)
+                                (nows n1 hi)) (nows lo hi))
+  | CCollect loc a b lo hi ea eb obs =>
+    fmt_ok loc a ea && fmt_ok loc b eb &&
+    (clock_ok lo hi &&
+     existsb (fun n1 => existsb (fun n2 => res_eqb triple_eqb (Ok (parse_time_range_collect loc n1 n2 (S_ a) (S_ b))) obs)
                                 (nows n1 hi)) (nows lo hi))
   end.
 
@@ -98,5 +109,21 @@ Definition holds (c : case) : bool :=
     | Err =>
       (* both sides well-formed and certainly ordered: must have been accepted *)
       match ia, ib with Some (_, ah), Some (bl, _) => negb (ah <=? bl) | _, _ => true end
+    end
+  | CCollect loc a b lo hi ea eb obs =>
+    let ia := denotes true a lo hi ea in
+    let ib := denotes false b lo hi eb in
+    match obs with
+    | Ok (f, l, d) =>
+      let e1 := zmem 1 d in let e2 := zmem 2 d in let e3 := zmem 3 d in
+      (* a start after the end is reported, and only then *)
+      Bool.eqb e3 (l <? f) &&
+      (e1 || in_itv f ia) && (e2 || in_itv l ib) &&
+      match ia, ib with
+      | Some (al, ah), Some (bl, bh) =>
+        negb e1 && negb e2 && (if bh <? al then e3 else true) && (if ah <=? bl then negb e3 else true)
+      | _, _ => true
+      end
+    | _ => false
     end
   end.
